@@ -46,12 +46,20 @@ pub fn setup(seed: u64, phase: Phase) -> Setup {
             sim.settle();
             sim.cmd(Cmd::Run);
             sim.settle();
-            // packet identifiers 1.. in order: sub=1, pub1=2, pub2=3, sub(outstanding)=4, unsub=5
+            // packet identifiers 1.. in order: sub A=1 (subscription id 1, live stream), pub1=2, pub2=3, sub(outstanding)=4
+            // (subscription id 2), unsub=5, sub D=6 (subscription id 3, acknowledged, stream dropped)
             let s = sim.start_op(0, OpSpec::Subscribe(SubSpec::simple("a/#")));
             sim.settle();
             sim.feed_packet(&SPacket::Suback { id: 1, props: vec![], reasons: vec![0] });
             sim.settle();
             let stream = sim.take_stream(s);
+            sim.handles[0].as_ref().unwrap().verif_seed_ids(6, 3);
+            let d = sim.start_op(0, OpSpec::Subscribe(SubSpec::simple("d/#")));
+            sim.settle();
+            sim.feed_packet(&SPacket::Suback { id: 6, props: vec![], reasons: vec![0] });
+            sim.settle();
+            sim.ops[d].rsp = None; // response and with it the stream receiver dropped
+            sim.handles[0].as_ref().unwrap().verif_seed_ids(2, 2);
             sim.start_op(0, OpSpec::Publish(PubSpec::simple(1, "t", b"1")));
             sim.start_op(0, OpSpec::Publish(PubSpec::simple(2, "t", b"2")));
             sim.start_op(0, OpSpec::Subscribe(SubSpec::simple("b/#")));
@@ -156,6 +164,11 @@ pub fn corpus() -> Vec<(String, Vec<u8>)> {
     add("publish-q0", SPacket::Publish(rc::Publish { dup: false, qos: 0, retain: false, topic: "a/b".into(), id: None, props: vec![Prop::var(11, 1)], payload: b"hello".to_vec() }));
     add("publish-q1", SPacket::Publish(rc::Publish { dup: false, qos: 1, retain: true, topic: "a/b".into(), id: Some(10), props: vec![Prop::var(11, 1), Prop::byte(1, 1), Prop::u32(2, 5), Prop::u16(35, 3), Prop::str(8, "r"), Prop::bin(9, b"c"), Prop::str(3, "t"), Prop::pair("k", "v")], payload: b"x".to_vec() }));
     add("publish-q2", SPacket::Publish(rc::Publish { dup: true, qos: 2, retain: false, topic: "a".into(), id: Some(11), props: vec![], payload: vec![] }));
+    for (n, ids) in [("dead-live", vec![3u32, 1]), ("live-dead", vec![1, 3]), ("dead-pending", vec![3, 2]), ("dead-dead", vec![3, 3]), ("all", vec![3, 2, 1]), ("live-live", vec![1, 1]), ("dead-unknown-live", vec![3, 77, 1])] {
+        for q in [0u8, 1] {
+            add(&format!("publish-multi-{n}-q{q}"), SPacket::Publish(rc::Publish { dup: false, qos: q, retain: false, topic: "m".into(), id: if q > 0 { Some(20) } else { None }, props: ids.iter().map(|i| Prop::var(11, *i)).collect(), payload: b"mm".to_vec() }));
+        }
+    }
     add("publish-nosub", SPacket::Publish(rc::Publish { dup: false, qos: 1, retain: false, topic: "z".into(), id: Some(12), props: vec![Prop::var(11, 300)], payload: vec![1, 2, 3] }));
     for (n, kind, id) in [("puback", AckKind::Puback, 2u16), ("pubrec", AckKind::Pubrec, 3), ("pubrel", AckKind::Pubrel, 11), ("pubcomp", AckKind::Pubcomp, 3), ("puback-unknown", AckKind::Puback, 999), ("pubrec-unknown", AckKind::Pubrec, 999), ("pubcomp-unknown", AckKind::Pubcomp, 999)] {
         add(&format!("{n}-2"), SPacket::Ack { kind, id, reason: 0, props: vec![], form: AckForm::Short2 });
